@@ -114,6 +114,7 @@ def process_transforms(ck, m):
     case0 = {"part": "A", "grid": m, "factor_bits": f2b(F)}
     ck.case(case0, nontrivial=True)
     ck.count("part=A")
+    ck.count("A_grid_points", len(a))
     # the constant: s = 2 pi hs / (g tz^2), g = 9.81
     if f2b(F) != f2b(2 * np.pi / 9.81) or f2b(float(vt.factor_sqrt)) != f2b(math.sqrt(F)):
         ck.fail({"entry": "variable_transform.factor", "predicate": "factor_is_2pi_over_g"}, case0,
